@@ -564,6 +564,16 @@ def final_forest(d, ex, res, md, spec):
                 if inc: return f"{cls}: never-infected node {n} touches occupied edge {inc[0]}"
                 if hit is not None: return f"{cls}: never-infected node {n} has hitting time {hit}"
         if len(occ) != len(ever - seed): return f"{cls}: {len(occ)} occupied edges for {len(ever - seed)} infected non-seed nodes"
+    # skeletonise(): exactly the occupied edges, on the full node set (it prunes the working network in place: last thing we do)
+    qs = [q for q in ex.cms if not isinstance(q, ScriptProc) and type(q).__name__ not in ('SIS', 'SIS_FixedRecovery', 'SIRS')]
+    if len(ex.cms) == 1 and qs:
+        q = qs[0]
+        nodes0 = list(g.nodes())
+        occ = sorted(tuple(sorted((a, b), key=repr)) for (a, b, data) in g.edges(data=True) if data.get(q.OCCUPIED, False))
+        sk = q.skeletonise()
+        if list(sk.nodes()) != nodes0: return f"{type(q).__name__}: skeletonise() returned nodes {list(sk.nodes())}, the network has {nodes0}"
+        got = sorted(tuple(sorted((a, b), key=repr)) for (a, b) in sk.edges())
+        if got != occ: return f"{type(q).__name__}: skeletonise() kept edges {got}, the occupied edges are {occ}"
     return None
 
 
